@@ -21,6 +21,9 @@ type c19Spec struct {
 	Rep   int      `json:"rep,omitempty"`
 	Word  []string `json:"word,omitempty"`
 	TBase float64  `json:"tbase"`
+	Long  *lwSpec  `json:"long,omitempty"` // a long world (long.go) instead of words
+	GW    int      `json:"gw,omitempty"`   // constant groundwater level from the soil file inside the profile
+	MissT int      `json:"miss_t,omitempty"` // 1: the mean temperature of the start day is missing in the weather file (front passage around it)
 }
 
 var c19Sigma = map[string]proj.Day{
@@ -90,6 +93,12 @@ func init() {
 							// stone content rotates through the grid (the fine-earth bulk density is what the heat routine sees)
 							h.Stone = []int{0, 0, 30, 70, 0, 85}[k%6]
 							base := e1Base{Soil: "custom", Hor: []proj.Horizon{h}, GW: 99, InitW: iw, InitN: 10, ET: 3}
+							// a constant groundwater table from the soil file inside the profile on part of the grid
+							if n == 20 && k%3 == 0 {
+								base.GW = []int{6, 12, 2}[(k/3)%3]
+							} else if n == 3 && k%4 == 0 {
+								base.GW = 2
+							}
 							tb := 8.7
 							if n == 3 {
 								tb = -2
@@ -105,6 +114,18 @@ func init() {
 							}
 						}
 					}
+				}
+			}
+			for _, lw := range lwSpecs(tier, seed, false) {
+				lw := lw
+				out = append(out, c19Spec{Long: &lw})
+			}
+			// the mean temperature of the start day is missing in the weather file and filled from the adjacent days,
+			// which lie on the other side of a front passage
+			for _, n := range []int{2, 8, 20} {
+				for _, around := range []string{"hot", "deep-frost"} {
+					h := proj.Horizon{Tex: "SL3", Lower: n, BD: 3, Corg: 1.2, CN: 10}
+					out = append(out, c19Spec{Base: e1Base{Soil: "custom", Hor: []proj.Horizon{h}, GW: 99, InitW: 0.6, InitN: 10, ET: 3}, Word: []string{around, "mild", "mild", "mild"}, TBase: 8.7, MissT: 1})
 				}
 			}
 			return mc.Specs(out)
@@ -137,6 +158,14 @@ func (l *c19Probe) probe() *hermes.VerifProbe {
 			if !l.init {
 				l.init = true
 				l.lo, l.hi = g.TBASE, g.TBASE
+				// the initial profile lies between the start day's air temperature extremes and the lower-boundary temperature
+				ilo, ihi := math.Min(g.TMIN[g.ITAG-1], g.TBASE), math.Max(g.TMAX[g.ITAG-1], g.TBASE)
+				for i := 0; i <= g.N; i++ {
+					if t := g.TSOIL[0][i]; !finite(t) || t < ilo-1e-9 || t > ihi+1e-9 {
+						l.c.Violate("initial-profile-outside-boundary-values", fmt.Sprintf("%s day %d: initial temperature of layer %d = %.6f, outside the start day's air temperature extremes %.3f..%.3f and the lower-boundary temperature %.3f", l.label, zeit, i, t, g.TMIN[g.ITAG-1], g.TMAX[g.ITAG-1], g.TBASE), nil)
+						break
+					}
+				}
 				for i := 0; i <= g.N; i++ {
 					l.widen(g.TSOIL[0][i])
 				}
@@ -149,6 +178,14 @@ func (l *c19Probe) probe() *hermes.VerifProbe {
 			surf := g.TSOIL[1][0]
 			if os.Getenv("C19_DEBUG") != "" {
 				fmt.Printf("day %d humus=%v bd=%v heatcap=%v cond=%v T=%v\n", zeit, g.HUMUS[:2], g.BD[:2], g.HEATCAP[:3], g.HEATCOND[:3], g.TSOIL[0][:4])
+			}
+			// the surface value itself: a mix of yesterday's surface value and a value between the day's minimum and its
+			// maximum, the latter stretched by the radiation term sqrt(0.0003 x radiation) where that exceeds 1
+			tmin, tmax := g.TMIN[g.TAG.Index], g.TMAX[g.TAG.Index]
+			stretch := math.Max(1, math.Sqrt(0.0003*math.Max(0, g.RAD[g.TAG.Index])*200))
+			slo, shi := math.Min(tmin, l.prevSurf), math.Max(tmin+(tmax-tmin)*stretch, l.prevSurf)
+			if tmax >= tmin && (!finite(surf) || surf < slo-1e-9 || surf > shi+1e-9) {
+				l.c.Violate("surface-value-outside-air-temperature-range", fmt.Sprintf("%s day %d: surface temperature %.6f, but the day's air temperature is %.3f..%.3f (radiation stretch %.3f), previous surface value %.6f", l.label, zeit, surf, tmin, tmax, stretch, l.prevSurf), nil)
 			}
 			l.widen(surf) // the surface value imposed today belongs to the envelope
 			l.widen(g.TBASE)
@@ -194,6 +231,12 @@ func c19Run(raw json.RawMessage, c *mc.Ctx) {
 	sp := mc.Decode[c19Spec](raw)
 	root := scratchRoot()
 	defer os.RemoveAll(root)
+	if sp.Long != nil {
+		lwRun(c, *sp.Long, root, nil, func(w *lwInfo) *hermes.VerifProbe {
+			return (&c19Probe{c: c, label: "long world " + w.Name}).probe()
+		})
+		return
+	}
 	ws := [][]string{sp.Word}
 	if sp.Word == nil {
 		ws = words(sp.Alpha, sp.D)
@@ -206,6 +249,14 @@ func c19Run(raw json.RawMessage, c *mc.Ctx) {
 	maxR := 0.0
 	for _, w := range ws {
 		p.Weather = e1Weather(0, repeatWord(w, sp.Rep), false)
+		if sp.MissT == 1 {
+			// records: 3 lead days, the start day, the measurement day, the word ...; the start day is the opposite extreme
+			// of its neighbours and has no mean temperature
+			opp := map[string]string{"hot": "deep-frost", "deep-frost": "hot"}[w[0]]
+			p.Weather[2], p.Weather[4] = sigma[w[0]], sigma[w[0]]
+			p.Weather[3] = sigma[opp]
+			p.Weather[3].Tavg = -99.9
+		}
 		writeWeather(root, p)
 		l := &c19Probe{c: c, label: fmt.Sprintf("word=%v", w)}
 		nv := len(c.Viol)
